@@ -130,7 +130,7 @@ def main(tier, seed, args):
                   'outside': 'longer metadata; other records symbolic'}
     rep.assumptions = ['invoice oracle: an arbitrary byte string that is not one of the scenario invoices does not parse', 'bytes/std contracts']
     rep.trusted = ['mirsym', 'z3', 'bytes + std contracts', 'invoice oracle']
-    budget = 60 if tier == 'quick' else 900
+    budget = 400 if tier == 'quick' else 3000
     configs = build_cases(tier)
     scen_common.run_configs(rep, PID, c, configs, budget)
     if not rep.violations:
